@@ -44,6 +44,8 @@ let run op a =
   | "bin_average" -> let r = bin_sum_cnt (zs (g 0)) (zs (g 1)) (iset (g 2)) (List.hd (zs (g 3))) in
       out_z (List.map fst r) ^ "|" ^ out_n (List.map (fun (_, (c, _)) -> c) r) ^ "|" ^ out_z (List.map (fun (_, (_, s)) -> s) r)
   | "value_from" -> out_on (value_from (List.hd (zs (g 0))) (zs (g 1)) (zs (g 2)) (iset (g 3)))
+  | "threshold" -> out_iset (threshold_support (iset (g 0)) (List.combine (zs (g 1)) (List.map (fun i -> i <> 0) (ints (g 2)))))
+  | "dropna" -> out_iset (dropna_support (List.combine (zs (g 0)) (List.map (fun i -> i <> 0) (ints (g 1)))))
   | _ -> "ERR unknown op " ^ op
 
 let () =
